@@ -37,6 +37,7 @@ import (
 	"time"
 
 	"github.com/prometheus/client_golang/prometheus"
+	"github.com/scionproto/scion/pkg/addr"
 	"github.com/scionproto/scion/pkg/daemon"
 	"github.com/scionproto/scion/pkg/slayers"
 	"github.com/scionproto/scion/pkg/slayers/path"
@@ -68,6 +69,7 @@ type tcase struct {
 	// e2e
 	Cauth bool   `json:"cauth"`
 	Rm    string `json:"rm"`
+	cia   addr.IA // e2e, key regime with epochs: the client's ISD-AS (0: iaC)
 }
 
 // record layout consumed by ScionAuthTrace.tla
